@@ -1,3 +1,3 @@
 From Coq Require Import Extraction ExtrOcamlBasic.
 From Glb Require Import Check.C10.
-Extraction "model.ml" check_case verdict_ok verdict_clean c10_flags.
+Extraction "model.ml" check_case verdict_ok verdict_clean c10_tables.
